@@ -228,7 +228,7 @@ def run(prop, tier, seed):
             nrej = S.judge(prop, rej, nd, job, v)
             cov['configs'].append({'name': 'scenarios-' + prop, 'executions': nscen, 'trace_lines': vst.get('distinct', 1) - 1,
                                    'rejected_lines': nrej,
-                                   'what': 'C01: a NOTIFICATION of every error code x subcode in OpenSent / OpenConfirm / Established; C12: random environment behaviour with TCP-MD5 configured and the socket option call failing on chosen attempts; C03: random schedules with a resolution of 1/3000 s around the keepalive / hold instants (hold 0,3,4,10,45,90,180 x peer hold); C05: configurations x session histories x peer OPEN variants + AS_PATH mode probe; '
+                                   'what': 'C01: a NOTIFICATION of every error code x subcode, and every fuzzed frame of type UPDATE (the hostile-input set of C10), in OpenSent / OpenConfirm / Established; C12: random environment behaviour with TCP-MD5 configured and the socket option call failing on chosen attempts; C03: random schedules with a resolution of 1/3000 s around the keepalive / hold instants (hold 0,3,4,10,45,90,180 x peer hold); C05: configurations x session histories x peer OPEN variants + AS_PATH mode probe; '
                                            'C10: structure-aware and mutation fuzz (seeds: every bytes literal of the unit tests) in OpenSent/OpenConfirm/Established + known-good probe'})
             cov['traces_validated_against_impl'] += nscen
             cov['lines_validated'] += vst.get('distinct', 1) - 1
